@@ -120,9 +120,14 @@ class C02(C01):
             if c["kind"] in ("double", "sandwich") and k < (2 if tier == "quick" else 24):
                 c["fresh_interpreters"] = True
                 k += 1
+        # stacks chopped with one Stack.chop call (oracle only: no model request)
+        for _ in range(10 if tier == "quick" else 120):
+            cases.append(pc.gen_stack_case(rng))
         return cases
 
     def run_impl(self, case: dict) -> Any:
+        if case["kind"] == "stack":
+            return pc.run_stack(case)
         obs = pc.prepare(case)
         obs["trace"] = propagation_trace(case)
         rng = random.Random(json.dumps(case, sort_keys=True))
@@ -145,7 +150,18 @@ class C02(C01):
             obs["fresh"] = fresh_interpreter_outcomes(case)
         return obs
 
+    def classify(self, case, impl):
+        return "stack" if case["kind"] == "stack" else super().classify(case, impl)
+
+    def nontrivial_key(self, case, impl):
+        return json.dumps(case, sort_keys=True) if case["kind"] == "stack" else super().nontrivial_key(case, impl)
+
+    def shrink_candidates(self, case: dict) -> List[dict]:
+        return [] if case["kind"] == "stack" else super().shrink_candidates(case)
+
     def requests(self, case: dict, impl: Any) -> List[str]:
+        if case["kind"] == "stack":
+            return []
         reqs = super().requests(case, impl)
         tr = impl.get("trace", {})
         if "adj" in tr and tr.get("outcome") in ("ok", "undefined"):
@@ -155,6 +171,8 @@ class C02(C01):
         return reqs
 
     def compare(self, case: dict, impl: Any, model: List[str]) -> Optional[str]:
+        if case["kind"] == "stack":
+            return None
         tr = impl.get("trace", {})
         k = 0
         if "internals" in impl and not impl.get("chop_error") and not impl.get("unrealisable") and not impl.get("extreme"):
@@ -170,6 +188,8 @@ class C02(C01):
 
     def oracle(self, case: dict, impl: Any) -> List[dict]:
         out: List[dict] = []
+        if case["kind"] == "stack":
+            return pc.oracle_stack(case, impl)
         exp = pc.expected_outcome(case)
         oc = impl["outcome"]
         if oc == "hang" or impl.get("trace", {}).get("outcome") == "hang":
@@ -211,6 +231,33 @@ class C02(C01):
                 out.append({"site": "Mesh.write:second-write-ends-differently", "what": f"first {oc}, second {sec['outcome']} ({sec.get('message')})"})
             elif oc == "ok" and sec.get("same_text") is False:
                 out.append({"site": "Mesh.write:second-write-different-file", "what": "two writes of the same mesh differ"})
+        # chops placed on blocks of the assembled mesh afterwards (Block.chop), then written again
+        th = impl.get("third") or {}
+        if th.get("outcome"):
+            exp3 = pc.expected_outcome(case, late=True)
+            o3 = th["outcome"]
+            if o3 == "hang":
+                out.append({"site": "Mesh.write:hang:after-late-chops", "what": "write after late chops did not return"})
+            elif exp3 == "undefined" and o3 != "UndefinedGradingsError":
+                out.append({"site": "Mesh.write:family-without-chop-not-reported-as-undefined:after-late-chops", "what": f"outcome {o3}"})
+            elif exp3 != "undefined" and o3 == "UndefinedGradingsError":
+                out.append({"site": "Mesh.write:undefined-although-every-family-is-chopped:after-late-chops", "what": f"late chops {case.get('late')}: {th.get('message')}"})
+            elif exp3 == "ok" and o3 != "ok":
+                out.append({"site": f"Mesh.write:well-posed-model-not-written-{o3}:after-late-chops", "what": th.get("message")})
+            if o3 != "ok" and th.get("file_written"):
+                out.append({"site": "Mesh.write:partial-file-after-error:after-late-chops", "what": o3})
+            if o3 == "ok" and exp3 in ("ok", "any"):
+                fam_of, members = pc.families(case["asm"])
+                gc = geometric_counts(case, {"outcome": "ok", "hex": th["hex"], "order": impl["order"]})
+                for ch in case["chops"] + case.get("late", []):
+                    if all("count" in kw for kw in ch["calls"]):
+                        tot = sum(int(kw["count"]) for kw in ch["calls"])
+                        bad = [(b, a) for b, a in members[fam_of[(ch["block"], ch["axis"])]]
+                               if gc[f"{b}:{pc.axis_direction(case['asm']['blocks'][b]['rot'], a)[0]}"] != tot]
+                        if bad:
+                            out.append({"site": "hex:family-member-without-the-chop-count:after-late-chops",
+                                        "what": f"chop {ch} gives {tot}; block/axis {bad[0]} has another count"})
+                            break
         ag = impl["again"]
         for name in ("again", "perm"):
             if impl[name].get("second") == "hang":
